@@ -1,10 +1,10 @@
 package genwl
 
 import (
-	"google.golang.org/protobuf/types/dynamicpb"
 	"bytes"
 	"encoding/json"
 	"fmt"
+	"google.golang.org/protobuf/types/dynamicpb"
 	"math"
 	"reflect"
 	"strings"
@@ -129,6 +129,15 @@ func runC18(cfg *config, res *monitor.Result) {
 		if strings.HasSuffix(t.pkg.Unit, "struct") {
 			// google.protobuf.Struct/Value: arbitrary message values have no JSON form (a Value needs a kind set)
 			continue
+		}
+		// the same schema generated for another runtime gives an equally named Go package and type ("*p2req_d.Leaf"): for
+		// half of the types (by seed) those twins meet the adapters first
+		if monitor.NewRand(cfg.seed, "c18-twins-first", t.pkg.GoPkg, string(t.md.FullName())).Bool() {
+			for _, tw := range twinsOf(cfg, t) {
+				_ = monitor.Try(func() { _, _ = csproto.JSONMarshaler(tw).MarshalJSON() })
+				_ = monitor.Try(func() { _ = csproto.JSONUnmarshaler(tw).UnmarshalJSON([]byte("{}")) })
+				classes["twin-of-another-runtime-first/"+t.pkg.Flavour]++
+			}
 		}
 		g := cfg.gen(t)
 		g.NoExt = true
@@ -527,6 +536,24 @@ func deepChains(md protoreflect.MessageDescriptor, depth int) []*dynamicpb.Messa
 			cur = parent
 		}
 		out = append(out, cur)
+	}
+	return out
+}
+
+// twinsOf returns empty instances of the message types generated from the same schema and options for the other runtimes:
+// their Go package name and type name - hence what %T prints - equal those of t's type.
+func twinsOf(cfg *config, t target) []any {
+	rel := strings.TrimPrefix(string(t.md.FullName()), string(t.md.ParentFile().Package())+".")
+	var out []any
+	for _, p := range cfg.pkgs {
+		if p == t.pkg || p.Unit != t.pkg.Unit || p.OptKey != t.pkg.OptKey || p.Flavour == t.pkg.Flavour {
+			continue
+		}
+		for _, md := range p.Msgs {
+			if strings.TrimPrefix(string(md.FullName()), string(md.ParentFile().Package())+".") == rel {
+				out = append(out, p.New(md.FullName()))
+			}
+		}
 	}
 	return out
 }
